@@ -662,6 +662,8 @@ CONFIGS_P = {
 
 def run(tier):
   rep = common.Report(PID, tier, 'model_checking')
+  n_u = 4 if tier == 'quick' else sum(1 for q in u_sequences(tier) if len(q) <= 2)
+  explore.set_plan(common.thorough_budget(tier, 1200.0), len(CONFIGS_P[tier]) + 3 + (1 if tier == 'quick' else 2) + n_u + 1 + 5)
   for cfg, bound in CONFIGS_P[tier]:
     key = 'P:%r' % (cfg,)
     r = explore.explore(key, lambda ch, cfg=cfg: execute_p(cfg, ch), check_p(cfg), bound,
